@@ -431,26 +431,30 @@ def child(arg):
       out["samples"].append({"program_head": src[:600], "items": len(r["items"]),
                              "nontrivial_items": nt})
     if r["viol"]:
-      # one witness per program: minimise the first violated item
-      v = r["viol"][0]
-      # Mechanisms recognised by run-time identity facts need no minimised witness: attribute the
-      # original program directly (minimisation costs hundreds of analyses per witness).
+      # every violated item is attributed (a known mechanism on one item must not hide another item);
+      # identity-based mechanisms are attributed on the original program, the others on a minimised
+      # witness (at most 3 minimisations per program, further items are attributed unminimised)
       from vf.oracle import c01_diag
       precise = (c01_diag.K_SUPER_RECEIVER, c01_diag.K_ALIAS, c01_diag.K_SITE, c01_diag.K_AMBIG_STORE)
-      pre_key, pre_dg = classify(src, v)
-      if pre_key in precise:
-        out["violations"].append({"key": pre_key, "item": v, "diagnosis": pre_dg, "minimised": src,
-                                  "original": src, "program_seed": pseed, "minimiser_runs": 0,
-                                  "all_items_violated": r["viol"][:5]})
-        continue
-      if arg.get("minimise", True):
+      minimised_here = 0
+      seen_items = set()
+      for v in r["viol"][:8]:
+        ik = (v["kind"], v["name"])
+        if ik in seen_items:
+          continue
+        seen_items.add(ik)
+        pre_key, pre_dg = classify(src, v)
+        if pre_key in precise or minimised_here >= 3 or not arg.get("minimise", True):
+          out["violations"].append({"key": pre_key, "item": v, "diagnosis": pre_dg, "minimised": src,
+                                    "original": src, "program_seed": pseed, "minimiser_runs": 0,
+                                    "all_items_violated": r["viol"][:5]})
+          continue
+        minimised_here += 1
         msrc, mv, tries = minimise(src, v)
-      else:
-        msrc, mv, tries = src, v, 0
-      key, dg = classify(msrc, mv)
-      out["violations"].append({"key": key, "item": mv, "diagnosis": dg, "minimised": msrc,
-                                "original": src, "program_seed": pseed, "minimiser_runs": tries,
-                                "all_items_violated": r["viol"][:5]})
+        key, dg = classify(msrc, mv)
+        out["violations"].append({"key": key, "item": mv, "diagnosis": dg, "minimised": msrc,
+                                  "original": src, "program_seed": pseed, "minimiser_runs": tries,
+                                  "all_items_violated": r["viol"][:5]})
   return out
 
 
@@ -458,8 +462,8 @@ def child(arg):
 # program sets.  Every one of them has been swept on the unchanged tree (pytype violates C01 through a long
 # tail of by-design mechanisms; an unlisted one would otherwise surface on a fresh seed as an alarm that
 # says nothing about the change under test).  Diversity comes from the size of each set, not from the seed.
-QUICK_WORKLOADS = 48
-THOROUGH_WORKLOADS = 8
+QUICK_WORKLOADS = 32
+THOROUGH_WORKLOADS = 4
 
 
 def _tasks(tier, seed):
